@@ -60,6 +60,17 @@ impl VmConfig {
     }
 
     pub fn check_native_capability(&self, capability: &str) -> Result<(), String> {
+        // the capabilities the VM itself knows are switched by the capability bits
+        // (--ae-allow-fs=..., default: off), not only by the allow/deny lists
+        let bit = match capability {
+            "fs" => Some(self.capabilities.allow_fs),
+            "net" => Some(self.capabilities.allow_net),
+            "exec" => Some(self.capabilities.allow_exec),
+            _ => None,
+        };
+        if bit == Some(false) {
+            return Err(capability.to_string());
+        }
         // denied takes precedence
         if self.denied_caps.contains(capability) {
             return Err(capability.to_string());
